@@ -103,7 +103,8 @@ def gen(r, tier):
                 op["t"] = round(prev["t"] + r.choice([0.006, 0.02, 0.05, 0.09]), 4)
                 t = op["t"]
             if op.get("token") == "match" and not any(o["op"] == "request" and o["target"] == "peer" for o in ops):
-                ops.append({"op": "request", "t": round(t, 4), "target": "peer", "tuning": r.choice([None, "Unreliable"])})
+                ops.append({"op": "request", "t": round(t, 4), "target": "peer", "tuning": r.choice([None, "Unreliable"]),
+                            "raiser": r.chance(0.2)})
                 op["t"] = round(t + 0.05, 4)
                 t += 0.05
             ops.append(op)
@@ -396,7 +397,17 @@ def execute(sim, scn):
         tun = {"Reliable": Reliable, "Unreliable": Unreliable}.get(op["tuning"])
         msg = Message(code=GET, uri="coap://%s/q%d" % (target, i), transport_tuning=tun() if tun else None)
         own_issued[0] += 1
-        tracker.start(i, ctx, msg, handle_blockwise=False)
+        if op.get("raiser"):
+            msg.opt.observe = 0
+        rec = tracker.start(i, ctx, msg, handle_blockwise=False)
+        if op.get("raiser"):
+            # the application's own callbacks fail when they are handed the response: its problem, not the peer's --
+            # the message layer's reaction to the response that matched is the same
+            def raiser(_):
+                sim.probe("application_callback_raised_on_matching_response")
+                raise RuntimeError("application callback fails")
+            rec["req"].observation.register_errback(raiser)
+            rec["req"].observation.register_callback(raiser)
         if op["target"] == "mcast":
             sim.probe("request_to_multicast")
             if op["tuning"] == "Reliable":
